@@ -6,7 +6,7 @@
 From LC Require Import Lib.Bytes Lib.Lex Lib.Fields Lib.PathM Gen.Consts
   Model.MountInfo Model.FsTree Model.Kernel Model.Layers Cases.Verdict Cases.LC Cases.C08
   Proofs.C08DocP Proofs.C08P Proofs.C08ProbeP Proofs.C08MountedP Proofs.C08ShallowP
-  Proofs.SourcesP Proofs.C08SourcesP Proofs.C08ThmP Proofs.C08ExamplesP.
+  Proofs.SourcesP Proofs.C08SourcesP Proofs.C08ThmP Proofs.C08ExamplesP Proofs.LayerNamesDistinctP.
 Open Scope N_scope.
 
 (* ---------------------------------------------------------------- (a) mkdirs recreates *)
@@ -56,7 +56,7 @@ Print Assumptions C08_state_is_documented_partial.
 Theorem C08_state_is_documented_syntactic_partial : forall cfg w e um,
   LC.wf_cfg cfg = true -> cfg_dirs_ok cfg = true ->
   wf_table (ks_tab (LC.wo_ks w)) = true -> regular_table (ks_tab (LC.wo_ks w)) = true ->
-  layer_names_distinct cfg w = true -> sources_shallow cfg w = true ->
+  fs_paths_ok (LC.wo_fs w) = true -> sources_shallow cfg w = true ->
   own_mounts_shown cfg w = true -> no_foreign_on_missing_source cfg w = true ->
   C08.step_spec cfg w (LC.view_of_model cfg w e CProbe um) = true.
 Proof. exact state_is_documented_syntactic. Qed.
@@ -97,6 +97,11 @@ Theorem C08_sources_agree_of_shown : forall c w,
 Proof. exact sources_agree_of_shown. Qed.
 Print Assumptions C08_sources_agree_of_shown.
 
+Theorem C08_layer_names_distinct_of_paths : forall c w,
+  is_abs (c_layers c) = true -> fs_paths_ok (LC.wo_fs w) = true -> layer_names_distinct c w = true.
+Proof. exact layer_names_distinct_of_paths. Qed.
+Print Assumptions C08_layer_names_distinct_of_paths.
+
 Theorem C08_dir_test_agrees_of_shallow : forall c w,
   LC.wf_cfg c = true -> sources_shallow c w = true -> dir_test_agrees c w = true.
 Proof. exact dir_test_agrees_of_shallow. Qed.
@@ -116,7 +121,7 @@ Print Assumptions C08_model_step_partial.
 Theorem C08_hyps_satisfiable :
   LC.wf_cfg ex_cfg = true /\ is_dir (LC.wo_fs ex_w1) [sl] = true
   /\ wf_table (ks_tab (LC.wo_ks ex_w1)) = true /\ regular_table (ks_tab (LC.wo_ks ex_w1)) = true
-  /\ cfg_dirs_ok ex_cfg = true /\ layer_names_distinct ex_cfg ex_w1 = true
+  /\ cfg_dirs_ok ex_cfg = true /\ layer_names_distinct ex_cfg ex_w1 = true /\ fs_paths_ok (LC.wo_fs ex_w1) = true
   /\ sources_agree ex_cfg ex_w1 = true /\ own_mounts_shown ex_cfg ex_w1 = true
   /\ dir_test_agrees ex_cfg ex_w1 = true /\ sources_shallow ex_cfg ex_w1 = true
   /\ no_foreign_on_missing_source ex_cfg ex_w1 = true
